@@ -16,9 +16,9 @@
 (***************************************************************************)
 EXTENDS ScxmlStep, Json, IOUtils, TLC
 
-RawCharts == ndJsonDeserialize(IOEnv.CHARTS)
-ChartsFromFile == [i \in DOMAIN RawCharts |-> Aug(RawCharts[i])]
-TraceLog       == ndJsonDeserialize(IOEnv.TRACE)
+\* Both files are loaded once by TInit into TLC registers (see ScxmlStep.Charts)
+TraceLog == TLCGet(2)
+LoadTrace == TLCSet(2, ndJsonDeserialize(IOEnv.TRACE))
 Strict         == "STRICT" \in DOMAIN IOEnv /\ IOEnv.STRICT = "1"
 
 VARIABLES l, skip, case
@@ -50,6 +50,8 @@ FirstDiff(a, b) ==
     IN  IF d = {} THEN n + 1 ELSE Min(d)
 
 TInit ==
+    /\ LoadCharts(ndJsonDeserialize(IOEnv.CHARTS))
+    /\ LoadTrace
     /\ InitFor(1)
     /\ l = 1
     /\ skip = TRUE
